@@ -32,6 +32,7 @@ func runC04(c *Check) {
 	c16Copy(c, "C04.O7")
 	c16Metadata(c, "C04.O7")
 	c04NoMessageWrites(c, "C04.O7", r)
+	c04NoSharedWrites(c, "C04.O7", r)
 }
 
 // the sent copies
@@ -601,4 +602,27 @@ func c04NoMessageWrites(c *Check, id string, r *GCRoles) {
 		n++
 	}
 	c.Report(true, id, "MESSAGE-CONTENT-SCANNED", r.Publish, r.Publish.Pos(), "package scan", fmt.Sprintf("%d functions of the Pub/Sub scanned for writes to message content", n))
+}
+
+// c04NoSharedWrites: the deliver function runs once per subscriber, concurrently,
+// on arguments shared between those goroutines (the message, the log fields):
+// it must not write through them.
+func c04NoSharedWrites(c *Check, id string, r *GCRoles) {
+	D := r.Deliver
+	n := 0
+	for _, f := range WithAnon(D) {
+		AllInstrs(f, func(in ssa.Instruction) {
+			mu, ok := in.(*ssa.MapUpdate)
+			if !ok {
+				return
+			}
+			n++
+			shared := AnyOrigin(mu.Map, func(o ssa.Value) bool {
+				p, ok := o.(*ssa.Parameter)
+				return ok && p.Parent() == D
+			})
+			c.Report(!shared, id, "NO-WRITE-TO-SHARED-ARGUMENTS", f, in.Pos(), "map update in the deliver function", "the deliver function does not write into a map it was given: the same map is handed to the deliver goroutines of all subscribers (concurrent map writes crash the process)")
+		})
+	}
+	c.Report(true, id, "SHARED-ARGUMENTS-SCANNED", D, D.Pos(), "deliver function", fmt.Sprintf("%d map updates in the deliver function examined", n))
 }
